@@ -12,7 +12,7 @@ VARIABLE l
 
 ToSet(s) == {s[i] : i \in DOMAIN s}
 AllowIds == IF "ALLOW" \in DOMAIN IOEnv THEN IOEnv.ALLOW ELSE ""
-KnownIds == {"KF-C05-notlonger"}
+KnownIds == {"KF-C05-notlonger", "KF-C09-rollback-number", "KF-C16-txheight"}
 Allow == {id \in KnownIds : \E i \in 1..(Len(AllowIds) - Len(id) + 1) : SubSeq(AllowIds, i, i + Len(id) - 1) = id}
 Prop == IF "PROP" \in DOMAIN IOEnv THEN IOEnv.PROP ELSE "C03"
 
@@ -36,6 +36,7 @@ LoadFs(r) ==
     /\ cells' = ToSet(r.st.cells) /\ hist' = ToSet(r.st.hist) /\ txs' = ToSet(r.st.txs)
     /\ hdrs' = ToSet(r.st.hdrs) /\ nums' = ToSet(r.st.nums)
     /\ cpFinal' = r.st.cpFinal /\ cached' = r.st.cached /\ pf' = r.st.pf
+    /\ fetchH' = ToSet(r.st.fetchH) /\ fetchT' = ToSet(r.st.fetchT)
 
 Oracle(r) ==
     [mode |-> "log", k |-> 0,
@@ -54,7 +55,8 @@ MsgOf(a) ==
      cont |-> a.attrs.cont, mmem |-> 0, mmr |-> a.attrs.mmr, tau |-> a.attrs.tau, td |-> a.attrs.td]
 
 \* persistent pipeline state and the lock-protected map stay as they are
-PipeUnchanged == UNCHANGED <<scripts, startOf, minF, mdb, mmem, cpFinal>> /\ IxUnchanged
+PipeUnchanged == UNCHANGED <<scripts, startOf, minF, mdb, mmem, cpFinal, fetchH, fetchT>> /\ IxUnchanged
+PipeUnchangedNoFetch == UNCHANGED <<scripts, startOf, minF, mdb, mmem, cpFinal>> /\ IxUnchanged
 PersistentUnchanged == UNCHANGED <<scripts, startOf, minF, mdb, cpFinal>> /\ IxUnchanged
 
 IsPrefixSeq(a, b) == Len(a) <= Len(b) /\ SubSeq(b, 1, Len(a)) = a
@@ -63,42 +65,70 @@ IsPrefixSeq(a, b) == Len(a) <= Len(b) /\ SubSeq(b, 1, Len(a)) = a
 BlocksProofEv(a) ==
     LET bpr == pf[a.p].bpr IN
     /\ UNCHANGED <<world, cfg, now, tip, tipTD, lastN>>
-    /\ UNCHANGED <<scripts, startOf, minF, mdb, cpFinal>> /\ IxUnchanged
+    /\ UNCHANGED <<scripts, startOf, minF, mdb, cpFinal>>
     /\ IF ~bpr.on
-       THEN /\ out'.ban = {a.p} /\ UNCHANGED <<peer, mmem>>
+       THEN /\ out'.ban = {a.p} /\ UNCHANGED <<peer, mmem, fetchH, fetchT>> /\ IxUnchanged
        ELSE IF a.onChain
        THEN /\ out'.ban = {}
             /\ UNCHANGED peer
             /\ LET found == {h \in ToSet(bpr.hs) : h >= 1 /\ IsAnc(world, h, bpr.last) /\ Num(world, h) < Num(world, bpr.last)}
-               IN mmem' = IF bpr.get THEN {<<e[1], e[2] \/ e[1] \in found, e[3]>> : e \in mmem} ELSE mmem
+               IN /\ mmem' = IF bpr.get THEN {<<e[1], e[2] \/ e[1] \in found, e[3]>> : e \in mmem} ELSE mmem
+                  /\ HeaderFetchEffects(found, ToSet(bpr.hs) \ found)
        ELSE \* the server does not know the requested last header: its tip state, nothing else
-            /\ out'.ban = {} /\ UNCHANGED mmem
+            /\ out'.ban = {} /\ UNCHANGED mmem /\ IxUnchanged
             /\ peer' = [peer EXCEPT ![a.p] = ReceiveLastState(peer[a.p], a.tip, now).s]
+            /\ fetchH' = MarkTimeout(fetchH, ToSet(bpr.hs)) /\ UNCHANGED fetchT
+
+TxsProofEv(a) ==
+    /\ UNCHANGED <<world, cfg, now, tip, tipTD, lastN>>
+    /\ UNCHANGED <<scripts, startOf, minF, mdb, mmem, cpFinal>>
+    /\ TxsProofEffects(a.p, a.onChain, a.tip)
+
+\* the answer names a block that does not contain the transaction: only the known finding explains it
+WrongBlockNote(a) ==
+    (a.status = "committed" /\ a.blk # TxOf(world, a.t).b) =>
+        /\ "KF-C16-txheight" \in cfg.allow
+        /\ a.blk >= 1 /\ Num(world, a.blk) = Num(world, TxOf(world, a.t).b)
+        /\ PrintT(<<"KNOWN-FINDING", "KF-C16-txheight", a.t, a.blk>>)
 
 QuiescentEv(a) ==
     /\ UNCHANGED psCore /\ PipeUnchanged
     /\ (Quiet => Complete)
 
 Step(r) ==
-    CASE r.ev = "Connect"    -> Connect(r.a.p) /\ PipeUnchanged
-      [] r.ev = "Disconnect" -> Disconnect(r.a.p) /\ PipeUnchanged
+    CASE r.ev = "Connect"    -> Connect(r.a.p) /\ PipeUnchangedNoFetch /\ TimeoutPeers({r.a.p})
+      [] r.ev = "Disconnect" -> Disconnect(r.a.p) /\ PipeUnchangedNoFetch /\ TimeoutPeers({r.a.p})
       [] r.ev = "Advance"    -> Advance(r.a.d) /\ PipeUnchanged
-      [] r.ev = "Refresh"    -> /\ RefreshTick(Oracle(r), {p \in PeerNames : FALSE})
+      [] r.ev = "Refresh"    -> /\ RefreshTick(Oracle(r), RequestTimeouts)
+                                /\ TimeoutPeers({p \in PeerNames : peer[p].st # "None" /\ TimedOut(peer[p])} \cup RequestTimeouts)
                                 /\ UNCHANGED <<scripts, startOf, minF, mdb, mmem>> /\ IxUnchanged
                                 /\ IsPrefixSeq(cpFinal, cpFinal')       \* C07: final check points are append-only
       [] r.ev = "LastState"  -> RecvLastState(r.a.p, [b |-> r.a.b, ok |-> r.a.ok], Oracle(r)) /\ PipeUnchanged
       [] r.ev = "Proof"      -> /\ RecvProof(r.a.p, MsgOf(r.a), Oracle(r))
                                 /\ UNCHANGED <<startOf, cpFinal>>
-                                /\ CommitEffects(r.st.peer[r.a.p].pReorg, r.st.tip # tip \/ r.st.tipTD # tipTD)
-      [] r.ev = "Restart"    -> Restart /\ PersistentUnchanged /\ mmem' = {}
+                                /\ CommitEffects(r.st.peer[r.a.p].pReorg, r.st.peer[r.a.p].pLastN,
+                                                 r.st.tip # tip \/ r.st.tipTD # tipTD)
+                                /\ ((\E e \in scripts' : e[2] = minF' + 1 /\ e \notin scripts) =>
+                                        PrintT(<<"KNOWN-FINDING", "KF-C09-rollback-number", minF' + 1>>))
+      [] r.ev = "Restart"    -> Restart /\ PersistentUnchanged /\ mmem' = {} /\ fetchH' = {} /\ fetchT' = {}
       [] r.ev = "SetScripts" -> SetScripts(r.a.cmd, r.a.list)
       [] r.ev = "FilterTick" -> IF r.a.token = 0 THEN FilterTick0 ELSE UNCHANGED psCore /\ PipeUnchanged
-      [] r.ev \in {"IdleTick", "FetchTick", "NoAnswer"} -> UNCHANGED psCore /\ PipeUnchanged
+      [] r.ev \in {"IdleTick", "NoAnswer"} -> UNCHANGED psCore /\ PipeUnchanged
+      [] r.ev = "FetchTick"  -> FetchTick
+      [] r.ev = "FetchTx"    -> RpcFetchTx(r.a.t, r.a.status, r.a.blk) /\ WrongBlockNote(r.a)
+      [] r.ev = "GetTx"      -> RpcGetTx(r.a.t, r.a.status, r.a.blk) /\ WrongBlockNote(r.a)
+      [] r.ev = "FetchHeader" -> RpcFetchHeader(r.a.b, r.a.status)
+      [] r.ev = "TxsProof"   -> TxsProofEv(r.a)
       [] r.ev \in {"CheckPoints", "FilterHashes"} -> UNCHANGED psCore /\ PipeUnchanged
       [] r.ev = "Filters"    -> RecvFilters(r.a.p, [start |-> r.a.start, fs |-> r.a.fs, hs |-> r.a.hs])
       [] r.ev = "BlocksProof" -> BlocksProofEv(r.a)
       [] r.ev = "Block"      -> RecvBlock(r.a.p, r.a.b, r.a.body)
       [] r.ev = "Quiescent"  -> QuiescentEv(r.a)
+      [] r.ev = "Panic"      -> \* the only deliberate abort: a valid second proof (from genesis) confirms a long fork
+                                /\ r.a.during = "Proof" /\ r.a.msg = "long fork detected"
+                                /\ peer[r.a.args.p].req.on /\ peer[r.a.args.p].req.fork
+                                /\ r.a.args.kind = "honest"
+                                /\ UNCHANGED psCore /\ PipeUnchanged
       [] OTHER               -> FALSE
 
 TraceInit ==
@@ -111,6 +141,7 @@ TraceInit ==
        /\ cells = ToSet(r.st.cells) /\ hist = ToSet(r.st.hist) /\ txs = ToSet(r.st.txs)
        /\ hdrs = ToSet(r.st.hdrs) /\ nums = ToSet(r.st.nums)
        /\ cpFinal = r.st.cpFinal /\ cached = r.st.cached /\ pf = r.st.pf
+       /\ fetchH = ToSet(r.st.fetchH) /\ fetchT = ToSet(r.st.fetchT)
        /\ startOf = <<>>
 
 TraceNext ==
@@ -139,6 +170,8 @@ TraceInv ==
     /\ (tip # Genesis => TipTruthful)
     /\ NoForgedData
     /\ MatchedAtRightHeight
+    /\ NoOrphanFetch
+    /\ FetchedTruthful
 
 TraceAccepted ==
     LET d == TLCGet("stats").diameter IN
